@@ -11,24 +11,25 @@ Definition C10_full : Prop :=
   forall W ps tg, wf_pieces ps = true -> tg <> TSq -> tg <> TBq ->
   expand_env W [(tg, render_pieces ps)] = [(tg, den_pieces W ps)].
 
-(** echo "x='$A'" with A=v : double-quoted, yet left unexpanded by the gate *)
+(** echo x='$A' with A=v : the UNTAGGED alias-definition token is left unexpanded by the gate (since 8dc686a the
+    double-quoted one is expanded: gate_dq_expands) *)
 Definition ps_exempt := map PLit [120; 61; 39] ++ [PRef false [65]; PLit 39].
 Definition W_v := world_of [([65], [118])] [].
 Lemma exempt_witness :
   wf_pieces ps_exempt = true /\ gate_ok ps_exempt = false /\
   render_pieces ps_exempt = [120; 61; 39; 36; 65; 39] /\ den_pieces W_v ps_exempt = [120; 61; 39; 118; 39] /\
-  expand_env W_v [(TDq, render_pieces ps_exempt)] = [(TDq, render_pieces ps_exempt)].
+  expand_env W_v [(TNone, render_pieces ps_exempt)] = [(TNone, render_pieces ps_exempt)].
 Proof.
   split; [reflexivity|]. split; [reflexivity|]. split; [reflexivity|]. split; [reflexivity|].
   rewrite expand_env_map. cbn [map]. change (render_pieces ps_exempt) with [120; 61; 39; 36; 65; 39].
-  rewrite gate_exempts_dq. reflexivity.
+  rewrite gate_exempts_untagged. reflexivity.
 Qed.
 
 Theorem full_refuted : ~ C10_full.
 Proof.
   intros H. destruct exempt_witness as (Hw & _ & Hr & Hd & He).
-  specialize (H W_v ps_exempt TDq Hw). rewrite He, Hr, Hd in H.
-  assert (X : TDq <> TSq /\ TDq <> TBq) by (split; discriminate).
+  specialize (H W_v ps_exempt TNone Hw). rewrite He, Hr, Hd in H.
+  assert (X : TNone <> TSq /\ TNone <> TBq) by (split; discriminate).
   specialize (H (proj1 X) (proj2 X)). discriminate.
 Qed.
 
@@ -39,3 +40,22 @@ Theorem partial W ps tg :
 Proof.
   intros Hg Hw H1 H2. rewrite expand_env_map. cbn [map]. rewrite expand_env_tok_den by assumption. reflexivity.
 Qed.
+
+(** a double-quoted word: the larger domain [gate_ok_dq] (a single quote among the literals is harmless) *)
+Theorem partial_dq W ps :
+  gate_ok_dq ps = true -> wf_pieces ps = true ->
+  expand_env W [(TDq, render_pieces ps)] = [(TDq, den_pieces W ps)].
+Proof.
+  intros Hg Hw. rewrite expand_env_map. cbn [map]. rewrite expand_env_tok_den_dq by assumption. reflexivity.
+Qed.
+
+(** the former witness is inside that domain: "x='$A'" is expanded *)
+Example exempt_witness_dq :
+  gate_ok_dq ps_exempt = true /\
+  expand_env W_v [(TDq, render_pieces ps_exempt)] = [(TDq, den_pieces W_v ps_exempt)].
+Proof. split; [reflexivity|]. apply partial_dq; reflexivity. Qed.
+
+Print Assumptions full_refuted.
+Print Assumptions partial.
+Print Assumptions partial_dq.
+Print Assumptions exempt_witness_dq.
